@@ -450,6 +450,19 @@ static void rand_query(int t, int nq)
 		op_val(t, &q, len, asn, vh_chance(60), false);
 	}
 }
+/* the question a removal (or any restructuring of the trie) must not change: every pool record asked for exactly -
+ * its own prefix at its own length and at its max length, with its own AS */
+static void probe_record(int t, const struct pfx_record *p)
+{
+	op_val(t, &p->prefix, p->min_len, p->asn, vh_chance(50), false);
+	if (p->max_len != p->min_len && vh_chance(50))
+		op_val(t, &p->prefix, p->max_len, p->asn, false, false);
+}
+static void pool_sweep(int t)
+{
+	for (int i = 0; i < npool; i++)
+		probe_record(t, &pool[i]);
+}
 static void reload_sequence(void)
 {
 	int s = vh_rn(3);
@@ -515,6 +528,7 @@ static void deep_chain_episode(void)
 	for (int i = 0; i < npool; i += 2)
 		op_rm(1, &pool[i]);
 	rand_query(1, 40);
+	pool_sweep(1);
 	op_enum(1);
 	op_free(1, false);
 	op_reset();
@@ -533,7 +547,13 @@ static void episode(int nops, int maxpool)
 		if (c < 50) {
 			op_add(1, &pool[vh_rn(npool)]);
 		} else if (c < 78) {
-			op_rm(1, &pool[vh_rn(npool)]);
+			const struct pfx_record *victim = &pool[vh_rn(npool)];
+
+			op_rm(1, victim);
+			probe_record(1, victim);
+			probe_record(1, &pool[vh_rn(npool)]);
+			if (vh_chance(10))
+				pool_sweep(1);
 		} else if (c < 82) {
 			op_srcrm(1, vh_rn(3));
 		} else if (c < 88) {
@@ -546,6 +566,7 @@ static void episode(int nops, int maxpool)
 		}
 		rand_query(1, 1 + vh_rn(2));
 	}
+	pool_sweep(1);
 	op_enum(1);
 	if (vh_chance(70)) {
 		op_free(1, false);
